@@ -3047,6 +3047,36 @@ func i2Small(v ssa.Value, at *ssa.BasicBlock, depth int) string {
 				return "under isSmall of the same big.Int"
 			}
 		}
+		// a range predicate on the value: if fitsInt32(x) { makeSmallInt(x) } - evaluated at the int32 boundaries
+		if call, ok := cond.(*ssa.Call); ok && len(call.Call.Args) == 1 {
+			isCand := false
+			for _, cv := range cands {
+				if call.Call.Args[0] == cv {
+					isCand = true
+				}
+			}
+			if cal := call.Call.StaticCallee(); isCand && cal != nil && cal.Blocks != nil && relPkg(fnPkgPath(cal)) == "starlark" {
+				exact := true
+				for _, x := range []int64{math.MinInt64, math.MinInt32 - 1, math.MinInt32, 0, math.MaxInt32, math.MaxInt32 + 1, math.MaxInt64} {
+					arg := svInt(x)
+					if b := basicOf(call.Call.Args[0].Type()); b != nil && b.Info()&types.IsUnsigned != 0 {
+						if x < 0 {
+							continue
+						}
+						arg = svUint(uint64(x))
+					}
+					r, ok := sinterpFunc(cal, arg)
+					in32 := x >= math.MinInt32 && x <= math.MaxInt32
+					// on the edge we are on, the predicate has value `taken`: every x for which it has that value must fit
+					if !ok || r.k != 'b' || (r.b == taken && !in32) {
+						exact = false
+					}
+				}
+				if exact {
+					return "under the range predicate " + fnName(cal) + " (evaluated at the int32 boundaries)"
+				}
+			}
+		}
 		bo, ok := cond.(*ssa.BinOp)
 		if !ok {
 			continue
